@@ -892,6 +892,7 @@ def targets(tier):
                 "nt:all-ff",
                 "nt:all-zero",
                 "nt:len-64",
+                "nt:digits-look-like-a-prefix",
                 "nt:odd-nibbles",
                 "nt:partial-byte",
                 "nt:surrounding-newlines",
